@@ -719,14 +719,37 @@ def case_json(case):
 # --------------------------------------------------------------------------
 # model side
 
-def case_terms(case, idx, mode, om):
+def listing_coq(listing, pop):
+    """The os.listdir order the worker observed, in the model's names (a version file is "v<microseconds>.json")."""
+    dirs = []
+    for tdir, ents in listing:
+        es = []
+        for name, files in ents:
+            fs_ = []
+            for fname, idx in (files or []):
+                if idx is None:
+                    fs_.append(cs("?" + fname))
+                else:
+                    m = dict(pop[idx]["tree"][1])["modified"]
+                    fs_.append(cs("v%d.json" % m[1]))
+            es.append("(%s, [%s])" % (cs(name), "; ".join(fs_)))
+        dirs.append("(%s, [%s])" % (cs(tdir), "; ".join(es)))
+    return "(lspec [%s])" % ";\n  ".join(dirs)
+
+
+def case_terms(case, idx, mode, om, listing=None):
     k = case["split"]
     objs = [to_coq(o["tree"], o["reg"]) for o in case["pop"]]
+    t_all = "fs_build [] p%d" % idx
+    t_part = "fs_build [] (skipn %d p%d)" % (k, idx)
+    if listing is not None:
+        t_all = "reorder_fs (%s) %s" % (t_all, listing_coq(listing["all"], case["pop"]))
+        t_part = "reorder_fs (%s) %s" % (t_part, listing_coq(listing["part"], case["pop"]))
     defs = ("Definition p%d : list pv := [%s].\n" % (idx, ";\n ".join(objs)) +
             "Definition m%d := Eval vm_compute in mem_of p%d.\n" % (idx, idx) +
-            "Definition t%d := Eval vm_compute in fs_build [] p%d.\n" % (idx, idx) +
+            "Definition t%d := Eval vm_compute in %s.\n" % (idx, t_all) +
             "Definition ma%d := Eval vm_compute in mem_of (firstn %d p%d).\n" % (idx, k, idx) +
-            "Definition tb%d := Eval vm_compute in fs_build [] (skipn %d p%d).\n" % (idx, k, idx))
+            "Definition tb%d := Eval vm_compute in %s.\n" % (idx, t_part))
     terms = []
     for s in case["queries"]:
         terms.append("show3 %s %s p%d m%d t%d ma%d tb%d %s %s %s %s" % (
@@ -745,11 +768,11 @@ def ix_to_keys(line, keys):
     return "OK " + "".join((keys[int(x)] if x != "?" else "?") + ";" for x in line[3:].split(",") if x)
 
 
-def run_model(cases, mode, om, tag="c12"):
+def run_model(cases, mode, om, tag="c12", listings=None):
     """Evaluate every query of every case in the model; returns per case a list of (mem, fs, c2) lines."""
     groups, cur, size = [], [], 0
     for i, c in enumerate(cases):
-        defs, terms = case_terms(c, i, mode, om)
+        defs, terms = case_terms(c, i, mode, om, listings[i] if listings else None)
         # bound the size of the printed result (coqc overflows its stack beyond ~20 000 characters)
         sz = len(terms) * (3 * 3 * len(c["pop"]) + 40)
         if cur and size + sz > 16000:
@@ -1196,12 +1219,14 @@ def expected_echo(case):
     return hashlib.sha1("\n".join(items).encode()).hexdigest(), set(items)
 
 
-def same_line(route, g, m, scan=None):
-    """Memory routes: same objects in the same order; filesystem routes: same multiset / same exception class.
+def same_line(route, g, m, scan=None, exact=False):
+    """Memory routes, and filesystem routes whose order is known (the model tree is arranged in the os.listdir order
+    the worker observed and no white list has two or more values): same objects in the same order / same exception
+    class.  Other filesystem routes: same multiset / same exception class.
     `scan` is the model's answer on the memory route for the same filters (every stored object is evaluated there):
     when that raises, WHICH object raises first on a filesystem route depends on os.listdir order, which nothing
     specifies -- two different exception classes are then the same observation."""
-    if route in ("mo", "md"):
+    if route in ("mo", "md") or exact:
         return g == m
     pg, pm = parse_line(g), parse_line(m)
     if pg[0] == "EXC" and pm[0] == "EXC" and scan is not None and scan.startswith("EXC"):
@@ -1224,10 +1249,15 @@ def compare_gets(case, impl, model, dis):
         for route, mline in zip(GET_ROUTES, mod):
             n += 1
             line = got[route][1]
-            if not same_line("mo" if route in ("mo", "cmo") else "fs", line, mline, mod[0] if route == "fs" else mod[2]):
+            # an id lookup leaves at most one value in either white list: the order is the listing order
+            if not same_line("mo" if route in ("mo", "cmo") else "fs", line, mline, mod[0] if route == "fs" else mod[2],
+                             exact=impl.get("listing") is not None):
                 dis.append({"route": route + ".all_versions", "get": g, "impl": line[:400], "model": mline[:400],
                             "pop": [to_json(o["tree"]) for o in case["pop"]], "split": case["split"]})
     return n
+
+
+ORDER_STATS = {"exact": 0, "multiset": 0}
 
 
 def compare(case, impl, model, dis, improved, scan_raises):
@@ -1235,11 +1265,14 @@ def compare(case, impl, model, dis, improved, scan_raises):
     n = 0
     vals = None
     for qi, (spec, got, mod) in enumerate(zip(case["queries"], impl["queries"], model)):
-        mm, mf, mc = mod
-        for route, mline, ordered in (("mo", mm, True), ("md", mm, True), ("fs", mf, False), ("c2", mc, False)):
+        mm, mf, mc, known = mod
+        known = (known == "true") and impl.get("listing") is not None
+        for route, mline, ordered in (("mo", mm, True), ("md", mm, True), ("fs", mf, known), ("c2", mc, known)):
             n += 1
+            if route in ("fs", "c2"):
+                ORDER_STATS["exact" if ordered else "multiset"] += 1
             g, m = got[route], mline
-            if not same_line(route, g, m, mm):
+            if not same_line(route, g, m, mm, exact=ordered):
                 # The model carries the known defects of the matched variant.  If the implementation gives exactly
                 # the reference answer where the model deviates from it, the code has become better than the model on
                 # an input of a known-defect class: recorded, not a disagreement.
@@ -1257,7 +1290,7 @@ def compare(case, impl, model, dis, improved, scan_raises):
                 # decide whether that object is looked at.  A filesystem answer that raises exactly as the scan of
                 # everything raises (memory route of the model) where the model's pruned search happens not to is
                 # within the theorem (opt_raises_only_if_scan_does), not a disagreement.
-                if not ordered and pg[0] == "EXC" and pm[0] == "OK" and mm == g and got["md"] == g:
+                if route in ("fs", "c2") and pg[0] == "EXC" and pm[0] == "OK" and mm == g and got["md"] == g:
                     scan_raises.append({"route": route, "spec": spec["q"] + spec["att"] + spec["comp"], "impl": g, "model": m[:200]})
                     continue
                 dis.append({"route": route, "spec": {kk: spec[kk] for kk in ("q", "att", "comp", "wrap", "bare", "none") if kk in spec},
@@ -1331,7 +1364,7 @@ def check(run):
     dis = []
     model = None
     try:
-        model = run_model([c for c, _ in good], mode, om)
+        model = run_model([c for c, _ in good], mode, om, listings=[r.get("listing") for _, r in good])
         total = 0
         improved, scan_raises = [], []
         for (c, r), m in zip(good, model):
@@ -1339,6 +1372,10 @@ def check(run):
             total += compare_gets(c, r, m, dis)
         run.coverage["raises_as_the_scan_where_model_search_does_not"] = {"count": len(scan_raises), "first": scan_raises[:3]}
         run.coverage["correspondence_comparisons"] = total
+        run.coverage["filesystem_route_comparisons"] = {
+            "order_and_exception_class_exact": ORDER_STATS["exact"], "multiset_only": ORDER_STATS["multiset"],
+            "why": "the model tree is arranged in the os.listdir order the worker observed; only a white list with two or "
+                   "more values (walked in Python set order) leaves the order of the answers unknown"}
         run.coverage["correspondence_disagreements"] = len(dis)
         run.coverage["implementation_better_than_model"] = {"count": len(improved), "first": improved[:3]}
         if improved:
